@@ -63,3 +63,10 @@ Example C08_example :
   map (fun k => reopen (crash (fun _ => 0) (exec (firstn k (expand (HRecover 5) s)) (bump (HRecover 5) s)))) [3; 7; 8; 20]
   = [Some 1; Some 1; Some 5; Some 5].
 Proof. vm_compute. reflexivity. Qed.
+
+(* every remaining property theorem of this file *)
+Print Assumptions C08_header.
+Print Assumptions C08_header_length.
+Print Assumptions C08_header_injective.
+Print Assumptions C08_install_stopped_good.
+Print Assumptions C08_reader_old_or_fail.
